@@ -323,9 +323,8 @@ func (s *MemoryBackend) read(ctx context.Context, store string, filter storage.R
 		}
 	}
 
-	if from <= len(matches) {
-		matches = matches[from:]
-	}
+	from = max(0, min(from, len(matches)))
+	matches = matches[from:]
 
 	to := 0 // fetch everything
 	if options != nil {
